@@ -7,7 +7,7 @@ import (
 
 func init() {
 	props["C11"] = &propCheck{
-		lean:    []string{"JSight.Props.C11"},
+		lean:    []string{"JSight.Props.C11", "JSight.Props.C07", "JSight.Props.C13"},
 		exes:    []string{},
 		run:     runC11,
 		rule:    "generated accepted documents x fault kinds (duplicate type/enum/server/tag/macro, same method on the same path, same URL path, paths differing only in a parameter name, second singleton child, missing required parameter, undefined type/enum/macro/tag) x every position where the fault can be injected; non-trivial = the fault is injected >= 1 directive away from the start; distinct = distinct faulty document",
